@@ -39,6 +39,10 @@ structure Ring where
   pushAfter : Nat
   agg : Nat
   dia : List (Nat × List Win)
+  /-- per ring slot: the flows (key, count) accepted into the bucket since its last reset, newest first. The
+  code keeps a `statisticsIndex` per bucket instead; everything `Statistics` reads from it is a function of this
+  list (`bucketStats`), and `Reset` replaces the index (`bflows[i] := []`). -/
+  bflows : List (List (Nat × Int))
 deriving DecidableEq, Repr
 
 def emptyBucket : Bucket := { start := 0, stop := 0, pushed := false, keys := [] }
@@ -107,7 +111,8 @@ def Ring.addFlow (r : Ring) (key : Nat) (t : Int) (cnt : Int) : Ring × Bool :=
     let b := r.bucket i
     let ws := (lookupDia r.dia key).getD []
     let r1 := { r with dia := setDia key (addWin b.start b.stop cnt ws) r.dia }
-    (r1.setBucket i { b with keys := insertKey key b.keys }, true)
+    ({ (r1.setBucket i { b with keys := insertKey key b.keys }) with
+        bflows := r.bflows.set i ((key, cnt) :: r.bflows.getD i []) }, true)
 
 /-- `DiachronicFlow.Rollover(limiter)`: drop the windows that end at or before the limiter. -/
 def dropExpired (limiter : Int) : List Win → List Win
@@ -185,7 +190,8 @@ def Ring.rollover (r : Ring) (sink : Bool) : Ring × Int × List Coll :=
   let en := st + r.interval
   let h := r.idxAdd r.head 1
   let flows := (r.bucket h).keys
-  let r1 : Ring := { r with head := h, buckets := r.buckets.set h { start := st, stop := en, pushed := false, keys := [] } }
+  let r1 : Ring := { r with head := h, buckets := r.buckets.set h { start := st, stop := en, pushed := false, keys := [] },
+                            bflows := r.bflows.set h [] }
   let lim := r1.boh
   let dia := flows.foldl (fun dia k => setDia k (dropExpired lim ((lookupDia dia k).getD [])) dia) r1.dia
   let r2 := { r1 with dia := dia }
@@ -200,7 +206,7 @@ def newRing (n : Nat) (interval now : Int) (pushAfter agg : Nat) : Ring :=
   let newest := now + interval
   let oldest := newest - interval * n
   let bs := (List.replicate n emptyBucket).set 0 { start := oldest, stop := oldest + interval, pushed := false, keys := [] }
-  rollN { buckets := bs, head := 0, interval := interval, pushAfter := pushAfter, agg := agg, dia := [] } n
+  rollN { buckets := bs, head := 0, interval := interval, pushAfter := pushAfter, agg := agg, dia := [], bflows := List.replicate n [] } n
 
 /-- `FlowSet(startGt, startLt)` (note: `StartTime <= startLt`, inclusive, as in the code). -/
 def Ring.flowSet (r : Ring) (gte lt : Int) : List Nat :=
@@ -213,5 +219,100 @@ def Ring.list (r : Ring) (gte lt : Int) : List (Nat × Int × Int × Int) :=
   (r.flowSet gte lt).filterMap (fun k =>
     let ws := (lookupDia r.dia k).getD []
     if within ws gte lt then some (k, aggregate ws gte lt) else none)
+
+/-! ### Statistics (stats.go, `BucketRing.Statistics`; `TimeSeries = false`, no `PolicyMatch`) -/
+
+/-- one policy hit of a flow key: policy id, action (0 allow, 1 deny, 2 pass), `PolicyIndex` (which the code
+copies into `StatisticsKey.RuleIndex`) -/
+structure Hit where
+  pol : Nat
+  act : Nat
+  idx : Nat
+deriving DecidableEq, Repr
+
+structure KeyInfo where
+  ingress : Bool          -- reporter = Dst (direction "ingress"), else "egress"
+  hits : List Hit         -- enforced ++ pending policy hits of the key's policy trace (no EndOfTier hits)
+deriving Repr
+
+/-- the flow keys the harness uses (same table in harness/cmd/c32) -/
+def keyInfo : Nat → KeyInfo
+  | 0 => ⟨false, [⟨1, 0, 0⟩]⟩
+  | 1 => ⟨true, [⟨1, 0, 0⟩, ⟨2, 1, 1⟩]⟩
+  | 2 => ⟨false, [⟨1, 2, 0⟩, ⟨2, 0, 1⟩, ⟨1, 0, 2⟩]⟩
+  | 3 => ⟨true, [⟨3, 1, 0⟩, ⟨3, 1, 0⟩, ⟨2, 0, 3⟩]⟩
+  | _ => ⟨false, []⟩
+
+structure Counts where
+  ain : Int
+  aout : Int
+  din : Int
+  dout : Int
+  pin : Int
+  pout : Int
+deriving DecidableEq, Repr
+
+def Counts.zero : Counts := ⟨0, 0, 0, 0, 0, 0⟩
+def Counts.add (a b : Counts) : Counts :=
+  ⟨a.ain + b.ain, a.aout + b.aout, a.din + b.din, a.dout + b.dout, a.pin + b.pin, a.pout + b.pout⟩
+
+/-- `statistics.add(flow, action)` restricted to one statistic type (0 packets, 1 bytes, 2 live connections).
+A harness flow of count `c` has PacketsIn = c, PacketsOut = 2c, BytesIn = 3c, BytesOut = 4c, NumConnectionsLive = c. -/
+def contrib (typ : Nat) (ingress : Bool) (act : Nat) (c : Int) : Counts :=
+  let io : Int × Int := match typ with
+    | 0 => (c, 2 * c)
+    | 1 => (3 * c, 4 * c)
+    | _ => (if ingress then c else 0, if ingress then 0 else c)
+  match act with
+  | 0 => ⟨io.1, io.2, 0, 0, 0, 0⟩
+  | 1 => ⟨0, 0, io.1, io.2, 0, 0⟩
+  | 2 => ⟨0, 0, 0, 0, io.1, io.2⟩
+  | _ => Counts.zero
+
+/-- result key: policy, action+1 (0 = unspecified), rule index, direction (0 any, 1 ingress, 2 egress) -/
+abbrev SKey := Nat × Nat × Nat × Nat
+
+/-- the distinct rule keys a flow of key `k` contributes to (`polToRules`) -/
+def rulesOf (k : Nat) : List Hit := (keyInfo k).hits.eraseDups
+
+/-- contributions of one accepted flow: (result key, counts); `groupByRule = false`: one entry per RULE hit,
+keyed by the policy (the code adds the flow to the policy once per rule of that policy it hits) -/
+def flowContribs (typ : Nat) (groupByRule : Bool) (f : Nat × Int) : List (SKey × Counts) :=
+  let ki := keyInfo f.1
+  (rulesOf f.1).map (fun h =>
+    (if groupByRule then (h.pol, h.act + 1, h.idx, if ki.ingress then 1 else 2) else (h.pol, 0, 0, 0),
+     contrib typ ki.ingress h.act f.2))
+
+def skeyLt (a b : SKey) : Bool :=
+  decide (a.1 < b.1) || (a.1 == b.1 && (decide (a.2.1 < b.2.1) || (a.2.1 == b.2.1 &&
+    (decide (a.2.2.1 < b.2.2.1) || (a.2.2.1 == b.2.2.1 && decide (a.2.2.2 < b.2.2.2))))))
+
+def insertS (x : SKey × Counts) : List (SKey × Counts) → List (SKey × Counts)
+  | [] => [x]
+  | y :: ys =>
+    if x.1 = y.1 then (y.1, y.2.add x.2) :: ys
+    else if skeyLt x.1 y.1 then x :: y :: ys
+    else y :: insertS x ys
+
+/-- sum per result key, sorted by key -/
+def sumContribs (cs : List (SKey × Counts)) : List (SKey × Counts) := cs.foldl (fun acc x => insertS x acc) []
+
+/-- `QueryStatistics` of every bucket in the range + the aggregation in `BucketRing.Statistics`: a function of
+the lists of flows accepted into those buckets -/
+def statsOfFlows (typ : Nat) (groupByRule : Bool) (fss : List (List (Nat × Int))) : List (SKey × Counts) :=
+  sumContribs (fss.flatMap (fun fs => fs.flatMap (flowContribs typ groupByRule)))
+
+/-- `iterBucketsTime(start, end)`: indexes from the bucket containing `start` (0: the oldest) up to but excluding
+the bucket containing `end` (0: the head bucket); `none` = "failed to find bucket for time range". -/
+def Ring.statRange (r : Ring) (gte lt : Int) : Option (List Nat) :=
+  let s := if gte == 0 then some (r.idxAdd r.head 1) else r.findBucket gte
+  let e := if lt == 0 then some r.head else r.findBucket lt
+  match s, e with
+  | some s, some e => some (r.iterIdx r.n s e)
+  | _, _ => none
+
+/-- `BucketRing.Statistics(req)` -/
+def Ring.stats (r : Ring) (typ : Nat) (groupByRule : Bool) (gte lt : Int) : Option (List (SKey × Counts)) :=
+  (r.statRange gte lt).map (fun idxs => statsOfFlows typ groupByRule (idxs.map (fun i => r.bflows.getD i [])))
 
 end CalicoVerif.C32
